@@ -658,6 +658,9 @@ func (d *simDir) dataAvail() int {
 		t = d.cur
 	}
 	for _, f := range d.q {
+		if f.ty == 9 {
+			continue
+		}
 		if f.ty != 2 {
 			break
 		}
@@ -666,12 +669,28 @@ func (d *simDir) dataAvail() int {
 	return t
 }
 
+// pingQueued: a ping the reader has not processed yet.  The peer of the reader must not close
+// before it is processed: the reader would answer with a pong to a closed socket, get RST, and
+// its next Read would fail with ECONNRESET instead of the abnormal closure (TCP timing, not
+// modelled).
+func (d *simDir) pingQueued() bool {
+	for _, f := range d.q {
+		if f.ty == 9 {
+			return true
+		}
+	}
+	return false
+}
+
 // canRead: a Read returns without blocking.
 func (d *simDir) canRead() bool {
 	if d.closed || d.cur > 0 {
 		return true
 	}
 	for _, f := range d.q {
+		if f.ty == 9 {
+			continue
+		}
 		if f.ty != 2 || f.n > 0 {
 			return true
 		}
@@ -694,6 +713,8 @@ func (d *simDir) read(buf int) int {
 		f := d.q[0]
 		d.q = d.q[1:]
 		switch {
+		case f.ty == 9:
+			continue
 		case f.ty == 8:
 			d.closed = true
 			return 0
@@ -811,7 +832,7 @@ func genDet(r *rand.Rand, tier string, w *bufio.Writer) {
 				dir[y].push(2, n)
 			case 3:
 				ops = append(ops, "rawmsg "+sideName(x)+" ping "+hexB(randBytes(r, r.Intn(10))))
-				dir[y].q = append(dir[y].q, simFrame{2, 0, 140}) // wire bytes only (plus the pong back)
+				dir[y].q = append(dir[y].q, simFrame{9, 0, 140}) // wire bytes only (plus the pong back)
 				dir[x].q = append(dir[x].q, simFrame{2, 0, 140})
 			case 4:
 				ops = append(ops, "rawmsg "+sideName(x)+" pong -")
@@ -863,7 +884,7 @@ func genDet(r *rand.Rand, tier string, w *bufio.Writer) {
 			}
 			ops = append(ops, "rawread "+sideName(x))
 		default: // close x
-			if lclosed[x] || csent[x] || s < steps/2 {
+			if lclosed[x] || csent[x] || s < steps/2 || dir[y].pingQueued() {
 				continue
 			}
 			ops = append(ops, "close "+sideName(x))
@@ -885,7 +906,7 @@ func genDet(r *rand.Rand, tier string, w *bufio.Writer) {
 	if r.Intn(2) == 0 {
 		x := r.Intn(2)
 		y := 1 - x
-		if !lclosed[x] && !csent[x] && !csent[y] && !lclosed[y] && !dir[y].canRead() {
+		if !lclosed[x] && !csent[x] && !csent[y] && !lclosed[y] && !dir[y].canRead() && !dir[y].pingQueued() {
 			ops = append(ops, "close "+sideName(x), "read "+sideName(y)+" "+strconv.Itoa(Pick(r, bufSizes)+1), "read "+sideName(y)+" 8")
 			if dir[x].wire() == 0 {
 				ops = append(ops, "read "+sideName(x)+" 16", "wmsg "+sideName(x)+" 00")
